@@ -126,6 +126,7 @@ PROFILES = {
     },
     "c17": {
         "far_p": 0.15,
+        "obj_tilt_p": 0.15,
         "force": ["skew_offset", "jitter", "stamp_edge"],
         "fault_pool": ["skew_offset", "drift", "jitter", "jump_back", "jump_forward", "stamp_edge", "drop", "reorder",
                        "delay", "miss", "ghost"],
@@ -142,7 +143,7 @@ PROFILES = {
         "max_samples": 8,
     },
     "c03": {"merge_p": 0.4, "dup_labels_p": 0.5, "narrow_crit_p": 0.6, "fp_gt_p": 0.2, "tasks": {"detection": 4, "tracking": 3, "fp_validation": 3}},
-    "c16": {"far_p": 0.15, "raw_p": 0.3, "sibling_p": 0.5, "ego_tilt_p": 0.5, "max_samples": 24, "max_actors": 16, "enable_p": 0.1, "tasks": {"detection": 3, "tracking": 3, "fp_validation": 1}},
+    "c16": {"obj_tilt_p": 0.2, "far_p": 0.15, "raw_p": 0.3, "sibling_p": 0.5, "ego_tilt_p": 0.5, "max_samples": 24, "max_actors": 16, "enable_p": 0.1, "tasks": {"detection": 3, "tracking": 3, "fp_validation": 1}},
     "c19": {"sibling_p": 0.35, "analyze_p": 1.0, "force": ["analyze"], "fp_gt_p": 0.15, "max_samples": 10,
             "tasks": {"detection": 5, "tracking": 3, "fp_validation": 2}},
     "c01": {"merge_p": 0.45, "dup_labels_p": 0.5, "radii_list_p": 0.55, "force": ["ghost", "dup_detection"], "contested_p": 0.7, "tasks": {"detection": 5, "tracking": 2, "fp_validation": 3},
@@ -267,6 +268,9 @@ def _make_world(rng, prof, task):
         last = n - 1 if rng.random() < 0.7 else rng.randrange(first, n)
         hole = rng.randrange(first, last + 1) if (last - first >= 2 and rng.random() < 0.1) else None
         attrs = [a for a in ATTRS if rng.random() < 0.08]
+        tilt_rp = None
+        if rng.random() < prof.get("obj_tilt_p", 0.0):
+            tilt_rp = [_r(rng.uniform(-0.2, 0.2), 5), _r(rng.uniform(-0.15, 0.15), 5)]  # annotated box not level (pitch, roll)
         states = []
         pose = [p0[0], p0[1], p0[2], yaw]
         for i, s in enumerate(samples):
@@ -284,6 +288,8 @@ def _make_world(rng, prof, task):
                         "qneg": rng.random() < 0.15,
                     }
                 )
+                if tilt_rp:
+                    states[-1]["rp"] = tilt_rp
             else:
                 states.append(None)
         actors.append(
@@ -381,6 +387,12 @@ def _crit_spec(rng, cfg, scale, narrow):
     if rng.random() < 0.3:
         rng.shuffle(labels)
     n = len(labels)
+    extra_label = None
+    if rng.random() < 0.1:
+        # the critical filter may name more labels than the evaluator targets
+        cand = [l for l in ["car", "truck", "bus", "bicycle", "motorbike", "pedestrian"] if l not in labels and TARGET_ALIAS.get(l) not in labels]
+        if cand and not cfg["merge"]:
+            extra_label = rng.choice(cand)
     f = rng.uniform(0.15, 0.7) if narrow else rng.uniform(0.8, 2.5)
     if rng.random() < 0.6:
         rg = {
@@ -395,10 +407,16 @@ def _crit_spec(rng, cfg, scale, narrow):
             "min": [rng.choice([0.0, 0.0, _r(rng.uniform(0.5, 0.25 * scale), 2)]) for _ in range(n)],
         }
     spec = {"labels": labels, "range": rg}
+    if extra_label:
+        spec["labels"] = labels + [extra_label]
+        for key in ("max_x", "max_y", "max", "min"):
+            if key in rg:
+                rg[key] = rg[key] + [rg[key][0]]
+    m = len(spec["labels"])
     if rng.random() < 0.2:
-        spec["min_pts"] = [rng.choice([0, 1, 5, 20]) for _ in range(n)]
+        spec["min_pts"] = [rng.choice([0, 1, 5, 20]) for _ in range(m)]
     if rng.random() < 0.15:
-        spec["conf_thr"] = [_r(rng.uniform(0.0, 0.6), 3) for _ in range(n)]
+        spec["conf_thr"] = [_r(rng.uniform(0.0, 0.6), 3) for _ in range(m)]
     if rng.random() < 0.1:
         spec["ignore_attrs"] = [rng.choice(ATTRS)]
     return spec
@@ -414,6 +432,9 @@ def _pf_spec(rng, cfg, factor=1.0):
         labels.insert(rng.randrange(len(labels) + 1), "false_positive")
     if rng.random() < 0.08:
         return {"labels": labels, "thr": None}
+    if rng.random() < 0.06:
+        # "no target labels" = every label of the family, one threshold each (9 autoware labels)
+        return {"labels": None, "thr": [_r(rng.uniform(0.4, 4.0) * factor, 3) for _ in range(9)]}
     return {"labels": labels, "thr": [_r(rng.uniform(0.4, 4.0) * factor, 3) for _ in labels]}
 
 
@@ -448,6 +469,7 @@ def _make_config(rng, prof, world):
     cfg = {
         "task": task,
         "frame": frame,
+        "frame_upper": rng.random() < 0.15,   # the frame id may be spelled in upper case
         "target_labels": labels,
         "merge": merge,
         "range": _range_spec(rng, n, scale),
@@ -720,6 +742,8 @@ def make_plan(seed, run, profile_name, clean=None, force=None):
                 "uuid": track_id[ai] if tracking else (None if rng.random() < 0.5 else "det%02d" % ai),
                 "faults": f,
             }
+            if rng.random() < 0.3:
+                o["vel"] = [_r(rng.uniform(-10, 10), 2), _r(rng.uniform(-3, 3), 2), 0.0]
             if idn == ai:
                 o["faults"].append("id_new")
             if swp and ai in swp:
